@@ -34,6 +34,7 @@ func runC05(p *Prog, r *Report) {
 	c03R4(p, r, "C05.R8", []string{"builder"})
 	candidatesUnfilteredRule(p, r, "C05.R9")
 	fieldPathRule(p, r, "C05.R10")
+	ignoreEveryFieldRule(p, r, "C05.R11")
 	armStoresRule(p, r, "C05.R7", "config.parseMethodLine", "map", "ignore", "autoMap")
 }
 
